@@ -46,6 +46,12 @@ func isPositive(x Value) bool {
 	return false
 }
 
+// isNaN returns true if x is a float and is NaN.
+func isNaN(x Value) bool {
+	f, ok := x.TryFloat()
+	return ok && f != f
+}
+
 func numIsLessThan(x, y Value) bool {
 	switch x.iface.(type) {
 	case int64:
@@ -61,6 +67,26 @@ func numIsLessThan(x, y Value) bool {
 			return ltFloatAndInt(x.AsFloat(), y.AsInt())
 		case float64:
 			return x.AsFloat() < y.AsFloat()
+		}
+	}
+	return false
+}
+
+func numIsLessThanOrEqual(x, y Value) bool {
+	switch x.iface.(type) {
+	case int64:
+		switch y.iface.(type) {
+		case int64:
+			return x.AsInt() <= y.AsInt()
+		case float64:
+			return leIntAndFloat(x.AsInt(), y.AsFloat())
+		}
+	case float64:
+		switch y.iface.(type) {
+		case int64:
+			return leFloatAndInt(x.AsFloat(), y.AsInt())
+		case float64:
+			return x.AsFloat() <= y.AsFloat()
 		}
 	}
 	return false
